@@ -307,3 +307,15 @@ def nested_paths_injective(p, k1, k2, prefix):
     """different cache keys are filed under different store keys (nested layout)"""
     requires(nested_path(p, k1, prefix) == nested_path(p, k2, prefix))
     ensures(k1 == k2)
+
+
+# ------------------------------------------------------------------ C12: what concurrent readers of a shared memory cache can observe
+# Per-operation guarantees (each is one of the obligations above): (i) get serves only an entry whose data was stored and whose
+# metadata says ready - a metadata-only placeholder is never served; (ii) store_metadata, which evaluations use for progress
+# and for the *final* metadata that precedes the data, never makes an entry retrievable; (iii) store files data and ready metadata
+# in one operation; (iv) remove / clean only remove.  Under the property's own granularity (one cache operation is one step)
+# these give "an entry another evaluation is still producing is never served as finished"; the schedule-level statement
+# (serialisability of whole evaluations) is explored by the labelled bounded stand-in only.
+prop("C12", fucs=["liquer.cache.MemoryCache.get", "liquer.cache.MemoryCache.store", "liquer.cache.MemoryCache.store_metadata",
+                  "liquer.cache.MemoryCache.remove", "liquer.cache.MemoryCache.contains", "liquer.cache.CacheCombine.get",
+                  "liquer.cache.CacheCombine.store"])
